@@ -25,6 +25,10 @@ fn leaf_value(leaf: &str, rng: &mut Rng) -> (DynVal, DynType) {
         "bytes1" => (DynVal::Bytes(vec![rng.below(256) as u8]), DynType::Bytes),
         "bytes2" => (DynVal::Bytes(vec![0xfb, 0xff]), DynType::Bytes),
         "bytes3" => (DynVal::Bytes(vec![0xfb, 0xef, 0xbe]), DynType::Bytes),
+        "bytesbig" => {
+            let n = *rng.pick(&[1024usize, 1025, 2049, 3073, 4096]);
+            (DynVal::Bytes((0..n).map(|i| (i * 31 % 251) as u8).collect()), DynType::Bytes)
+        }
         "uuid" => (DynVal::Uuid("6ba7b810-9dad-11d1-80b4-00c04fd430c8".parse().unwrap()), DynType::Uuid),
         "enum" => (DynVal::UnitVariant(0), DynType::Enum(vec![VariantType::Unit, VariantType::Unit])),
         "unit" => (DynVal::Unit, DynType::Unit),
